@@ -344,6 +344,16 @@ HISTORY_R12 = {
 }
 
 
+HISTORY_R13 = {
+    "C09-r13m1": "missed at first -> a stateful fitness function whose first value is exactly 0.0 for some programs (and the snapshots read the fitness store itself, not has_fitness)",
+    "C12-r13m2": "missed at first -> the direction of a single-objective problem given as a numpy bool",
+    "C14-r13m2": "missed at first -> budgets that the initial population already exhausts, with every shipped initialiser and odd population sizes",
+    "C16-r13m1": "missed at first -> AdaptiveGeneticProgramming: the best fitness of a generation is not worse than that of the generation before",
+    "C20-r13m1": "missed at first -> a recorder opened on a path that already holds the log of an earlier run",
+    "C20-r13m2": "missed at first -> the same individual object twice in one batch, all-rows mode",
+}
+
+
 def main():
     old = (VERIF / "seeded/INDEX.md").read_text() if (VERIF / "seeded/INDEX.md").exists() else ""
     hist = {}
@@ -362,6 +372,7 @@ def main():
     hist.update(HISTORY_R10)
     hist.update(HISTORY_R11)
     hist.update(HISTORY_R12)
+    hist.update(HISTORY_R13)
     rows, caught, neutralised = [], 0, []
     dirs = sorted(p for p in (VERIF / "seeded").iterdir() if p.is_dir())
     for d in dirs:
@@ -393,8 +404,8 @@ against scratch copies (`VERIF_REPO`).  All {n} changes keep the repository's fa
 Round 1: {r1} changes (`Cxx-mK`); round 2: {rn(2)} changes (`Cxx-r2mK`), whose authors were asked to look beyond the obvious function;
 round 3: {rn(3)} changes (`Cxx-r3mK`), whose authors were told that a randomised differential test on small inputs exists and asked for
 rarely used library features, narrow triggers and state carried between calls; round 4: {rn(4)} changes (`Cxx-r4mK`), same brief plus the list of
-everything tried before for that property ("find something genuinely different"); rounds 5 to 12: {rn(5)}, {rn(6)}, {rn(7)}, {rn(8)}, {rn(9)}, {rn(10)}, {rn(11)} and {rn(12)} changes
-(`Cxx-r5mK` ... `Cxx-r12mK`), same brief, each with the ideas of all earlier rounds listed as already tried.
+everything tried before for that property ("find something genuinely different"); rounds 5 to 13: {rn(5)}, {rn(6)}, {rn(7)}, {rn(8)}, {rn(9)}, {rn(10)}, {rn(11)}, {rn(12)} and {rn(13)} changes
+(`Cxx-r5mK` ... `Cxx-r13mK`; round 13 covered ten properties), same brief, each with the ideas of all earlier rounds listed as already tried.
 
 **{caught} of {n} are detected by the quick check of the property they break** ({len(neutralised)} more were made harmless by later `fix:` commits in /repo and are listed as n/a) (the `history` column says which were missed on their first evaluation and what was strengthened).
 
